@@ -140,6 +140,11 @@ def gen_ft(args):
             continue
         IP, IF, IA = o
         r['shapes_equal'] = int(IP.shape == x.shape and IF.shape == x.shape and IA.shape == x.shape)
+        if not r['shapes_equal']:
+            # (the remaining clauses are stated on arrays of the input's shape: nothing more can be recorded)
+            r.update(raised=1, err='output shapes %s %s %s for input %s' % (IP.shape, IF.shape, IA.shape, x.shape))
+            recs.append(r)
+            continue
         r['ip_in_range'] = int(bool(np.all(IP >= 0) and np.all(IP < 2 * np.pi)))
         # frequency is the sample-rate-scaled derivative of the unwrapped phase (on the RETURNED arrays)
         uw = np.unwrap(IP, axis=0)
@@ -165,7 +170,8 @@ def gen_ft(args):
         if ncol > 1:
             for c in range(ncol):
                 o1 = core.guarded(emd.spectra.frequency_transform, x[:, c], sr, method)
-                indep &= int(not isinstance(o1, str) and all(np.allclose(o1[q][:, 0], (IP, IF, IA)[q][:, c], rtol=1e-9, atol=1e-9) for q in range(3)))
+                indep &= int(not isinstance(o1, str) and all(np.shape(o1[q]) in ((x.shape[0],), (x.shape[0], 1)) and
+                                                             np.allclose(np.reshape(o1[q], (x.shape[0],)), (IP, IF, IA)[q][:, c], rtol=1e-9, atol=1e-9) for q in range(3)))
         r['cols_independent'] = indep
         lo, hi = n // 10, n - n // 10
         cf = ca = cp = 'tight'
